@@ -130,4 +130,6 @@ def zoo():
         build('2s-2n-iso', 2, 1, 2, 2, 2, isolated=(14, 15)),
         build('2s-2n-off', 2, 1, 2, 2, 2, offline=(3, 7)),
         build('hybrid', 1, 1, 2, 4, 2, ecore_nodes=(1,), cluster_cores=2, l2_cores=2),
+        build('2s-2n-iso4', 2, 1, 2, 2, 2, isolated=(6, 7, 12, 13, 14, 15)),     # isolated CPUs in three NUMA nodes, a whole node isolated
+        build('1s-2n-iso', 1, 1, 2, 2, 2, isolated=(2, 3, 6)),
     ]
